@@ -550,6 +550,24 @@ def truncate_session(g):
     return ops
 
 
+def bigcount_session(g):
+    """V5 / V7 headers announcing more records than a datagram can hold (count * 48 / 52 passes 65 535, where 16-bit
+    length arithmetic wraps), over bodies of every interesting size: nothing, the wrapped length, a little more, a
+    few whole records.  All of them are cut packets: an error, never a packet (C03, C14, C02)."""
+    r = g.r
+    ops = ops_reset(("A",))
+    for ver, size in ((5, 48), (7, 52)):
+        edge = 65536 // size            # first count whose byte length needs more than 16 bits
+        for c in sorted({edge - 1, edge, edge + 1, edge + 2, 2 * edge, 2 * edge + 1, 2 * edge + 2, r.randrange(edge, 65536), 32768, 65535}):
+            w = (c * size) % 65536
+            hdr = g.fixed(ver, 0)
+            hdr[2:4] = b16(c)
+            for n in sorted({0, w, w + size, w + 2 * size, 36, size, 3 * size, r.randrange(1, 400)}):
+                if n <= 4000:
+                    ops.append(call("A", hdr + g.rbytes(n)))
+    return ops
+
+
 # ---------------------------------------------------------------------- relational rounds
 def packet_sequence(g, n, ex9, ex10, self_delimiting=True):
     """n conformant packets over one pair of exporters (templates before data), each self-delimiting"""
@@ -779,6 +797,17 @@ def scale_sessions(g, tier):
     ix_t = g.ix_msg([g.set_(2, b16(4000 + i) + b16(1) + b16(1) + b16(4)) for i in range(nt)])
     sess(ix_ot, ix_t)
     sess(ix_t, g.ix_msg([g.set_(3, b16(2000 + i) + b16(2) + b16(1) + b16(1) + b16(4) + b16(2) + b16(4)) for i in range(nt)]))
+    # 10. a large cache (several datagrams of wide templates, both kinds, both protocols), then buffers that use none of
+    #     it: one minimal packet, and a datagram packed with minimal packets (cost must not be cache x packets)
+    wide9 = lambda base: g.v9_hdr(1) + g.set_(0, [x for i in range(40) for x in b16(base + i) + b16(300) + [y for j in range(300) for y in b16(1 + (j % 80)) + b16(4)]])
+    widex = lambda base: g.ix_msg([g.set_(2, b16(base + i) + b16(300) + [y for j in range(300) for y in b16(1 + (j % 80)) + b16(4)]) for i in range(40)])
+    sess(wide9(3000), wide9(3100), wide9(3200), widex(3000), widex(3100), widex(3200),
+         hx(16), g.v9_hdr(0), hx(16) * 1000, (b16(9) + b16(0) + [0] * 16) * 800, (b16(5) + b16(0) + [0] * 20) * 600)
+    # 11. an IPFIX template record announcing far more fields than it carries (accepted: the specifiers present are
+    #     the template), then many short records under it (cost must not be announced count x records)
+    for announced in (4096, 65535):
+        lying = g.ix_msg([g.set_(2, b16(5000) + b16(announced) + b16(4) + b16(1))])
+        sess(lying, g.ix_msg([g.set_(5000, [7] * 400)]), g.ix_msg([g.set_(5000, [7] * 3000)]))
     ops = []
     for s in S:
         ops += s
